@@ -109,6 +109,39 @@ def optsRow (role : String) (kind : Nat) (adv : List String) :
   else if role = "srv" then some (enc (serverOpts (connOfKind kind) ""))
   else none
 
+/-! ### channel binding: the flag a SCRAM client of the dependency announces
+
+`mellium.im/sasl` (trusted base, transcribed from `getGS2Header` / `NewClient`): a `-PLUS`
+mechanism whose negotiator has a TLS state and whose own name is in the remote list binds the
+channel (`p=tls-unique` below TLS 1.3, `p=tls-exporter` from TLS 1.3 on); with a TLS state but
+without the name in the remote list it says `y`; everything else says `n`. -/
+inductive Gs2
+  | n | y | pUnique | pExporter
+  deriving DecidableEq, Repr
+
+def Gs2.toString : Gs2 → String
+  | .n => "n" | .y => "y" | .pUnique => "p=tls-unique" | .pExporter => "p=tls-exporter"
+
+/-- `strings.HasSuffix(name, "-PLUS")` -/
+def isPlus (name : String) : Bool := !serverSupported name
+
+def gs2Flag (o : NegOpts) (name : String) : Gs2 :=
+  match o.tls with
+  | none => .n
+  | some s =>
+    if !isPlus name then .n
+    else if o.remote.contains name then (if 772 ≤ s.version then .pExporter else .pUnique)
+    else .y
+
+/-- a row of the probe table `saslScramGs2` as the model predicts it: `select` picks the
+mechanism, `clientOpts` builds its negotiator, the dependency derives the flag -/
+def gs2Row (kind : Nat) (cm adv : List String) : String × String :=
+  match select (cm.map fun n => (n, (fun _ => ({ kind := .more } : StepRes)))) adv with
+  | some (name, _) =>
+    if name = "" then ("-", "-")
+    else (name, (gs2Flag (clientOpts (connOfKind kind) adv "user" "pw" "") name).toString)
+  | none => ("-", "-")
+
 /-! ## many sessions, with a shared component -/
 
 /-- What the sessions on one feature value could share.  `σ` is the store; `init` its value
